@@ -228,7 +228,10 @@ def runC13 (c : CaseIn) : Array String := Id.run do
         -- a peer that does not offer both WITNESS and CF is banned and not kept
         for px in peers do
           if px.spec.kind == .noServices && (!o.banned.contains px.spec.idx || o.conn.contains px.spec.idx) then
-            out := out.push s!"ORACLE-FAIL C13 case {c.num} line {ln}: shape=peer-lacking-service-kept peer {px.spec.idx} does not offer {px.spec.variant} but is {if o.conn.contains px.spec.idx then "connected" else "not connected"} and {if o.banned.contains px.spec.idx then "banned" else "not banned"}: {obs}"
+            -- (a peer whose handshake stops right after its version message, or that hangs up right after it,
+            --  has told us what it offers: the ban is due from the version message on)
+            let stalled := (px.spec.variant.splitOn "-").length > 1
+            out := out.push s!"ORACLE-FAIL C13 case {c.num} line {ln}: shape={if stalled then "unsuitable-peer-not-banned-at-version" else "peer-lacking-service-kept"} peer {px.spec.idx} does not offer {px.spec.variant} but is {if o.conn.contains px.spec.idx then "connected" else "not connected"} and {if o.banned.contains px.spec.idx then "banned" else "not banned"}: {obs}"
       | none => out := out.push s!"DIFF C13 case {c.num} line {ln}: unparsable observation <{obs}>"
     | ["asked", i] =>
       -- ... and is never used for a query
